@@ -172,6 +172,9 @@ def install(E):
                 raise Infeasible()
             ctx.engine.use_assumption("PY-int: int(s) for s outside [0-9]+ returns an unconstrained integer or raises ValueError (signs, whitespace, underscores, non-ASCII digits not interpreted)")
             return VInt(ctx.fresh_int("int_of_odd_str"))
+        hook = ctx.engine.models.get(("int", getattr(v, "cls", None))) if isinstance(v, VObj) else None
+        if hook is not None:
+            return hook(ctx, v)
         raise Unsupported(f"int() of {v!r}")
     M["builtins.int"] = b_int
 
